@@ -101,14 +101,27 @@ Proof. exact chain_bounded. Qed.
 Print Assumptions C11_chain_bounded.
 
 (* sensitive headers reach only hosts Go's cross-origin rule allows unless the caller asked
-   for AlwaysCopy, and once stripped they stay stripped *)
-Theorem C11_sensitive_headers_only_where_allowed : forall ps init,
-  has_always_copy ps = false ->
+   for AlwaysCopy of that header, and once stripped they stay stripped *)
+Theorem C11_authorization_only_where_allowed : forall ps init,
+  copies_auth ps = false ->
   forall targets via strip s,
-  In s (fst (follow ps init via strip targets)) -> s_sensitive s = true ->
+  In s (fst (follow ps init via strip targets)) -> s_auth s <> 0 ->
   strip = false /\ (s_host s = init \/ should_copy init (s_host s) = true).
-Proof. exact follow_sensitive. Qed.
-Print Assumptions C11_sensitive_headers_only_where_allowed.
+Proof. exact follow_auth. Qed.
+Print Assumptions C11_authorization_only_where_allowed.
+
+Theorem C11_cookie_only_where_allowed : forall ps init,
+  copies_cookie ps = false ->
+  forall targets via strip s,
+  In s (fst (follow ps init via strip targets)) -> s_cookie s <> 0 ->
+  strip = false /\ (s_host s = init \/ should_copy init (s_host s) = true).
+Proof. exact follow_cookie. Qed.
+Print Assumptions C11_cookie_only_where_allowed.
+
+Theorem C11_headers_never_duplicated : forall ps init targets via strip s,
+  In s (fst (follow ps init via strip targets)) -> s_auth s <= 1 /\ s_cookie s <= 1.
+Proof. exact follow_no_duplicates. Qed.
+Print Assumptions C11_headers_never_duplicated.
 
 (* The pinned (pre-fix) code violates the first theorem; witness kept checked. *)
 Theorem C11_pinned_hostname_refuted :
